@@ -30,6 +30,14 @@ func (c *Conversation) akeHasFinished() error {
 func (c *Conversation) processAKE(msgType byte, msg []byte) (toSend []messageWithHeader, err error) {
 	c.ensureAKE()
 
+	if msgType == msgTypeDHCommit {
+		// an unparsable D-H Commit replaces nothing: the handlers below forget the exchange in
+		// progress (keys, stored g^x, state) before they look at the message
+		if err := (&dhCommit{}).deserialize(msg); err != nil {
+			return nil, err
+		}
+	}
+
 	var toSendSingle messageWithHeader
 	var toSendExtra []messageWithHeader
 
